@@ -284,3 +284,23 @@ def h5_aplanatic(ctx):
     # incoming wavefront: sphere about the object point; path = opd - n1 lam is the same for all rays (axial value: n2 zi - n1 zo)
     ctx.oblige('equal_optical_path', ctx.eq(opd - n1 * lam, n2 * zi - n1 * zo))
     ctx.observe('opd', opd)
+
+
+@harness('C06', 'H9_strehl_of_a_perfect_wavefront', funcs=['optiland.psf.FFTPSF._generate_pupils', 'optiland.psf.FFTPSF._pad_pupils',
+                                                           'optiland.psf.FFTPSF._compute_psf', 'optiland.psf.FFTPSF._get_normalization',
+                                                           'optiland.psf.FFTPSF.strehl_ratio'],
+         cases=lambda tier: [dict(n=4), dict(n=3), dict(n=4, free=1), dict(n=3, free=1)],
+         bounds='(free=1: only the first ray intensity symbolic, the others 1 - a one-parameter family in which counterexamples are easy to find) pupil sampling = grid = 4 or 3 (4 resp. 5 rays inside the unit pupil), one wavelength; the wavefront error of every ray is exactly 0 '
+                '(what the other harnesses establish for the stigmatic systems), the ray intensities are arbitrary positive reals (absorbing glass, '
+                'coatings: not uniform over the pupil)',
+         doc='a wavefront without error has Strehl ratio exactly one and its PSF peaks at 100 in the centre, whatever the transmitted intensities '
+             'of the rays')
+def h9_strehl(ctx, n, free=None):
+    from checks.C11 import make_psf
+    m = 4 if n == 4 else 5
+    I = [ctx.real(f'I{i}', lo=0.001, hi=1.0) if free is None or i < free else 1.0 for i in range(m)]
+    p = make_psf(ctx, [0.0] * m, I, n=n)
+    st = ctx.val(p.strehl_ratio())
+    ctx.oblige('strehl_is_one', ctx.eq(st, 1.0))
+    ctx.oblige('peak_is_100', ctx.eq(ctx.val(p.psf[n // 2, n // 2]), 100.0))
+    ctx.observe('strehl', st)
